@@ -466,7 +466,13 @@ func (w *World) Stop() {
 	<-w.drvDone
 	w.Res.SimNS = w.NowNS()
 	w.Res.TraceU(w.trace, uint64(w.Res.SimNS))
+	if wOnStop != nil {
+		wOnStop(w)
+	}
 }
+
+// wOnStop, if set, sees every world when its driver has stopped (differential workloads capture the history here).
+var wOnStop func(w *World)
 
 // shape: abstract signature of the exchange (direction, packet types, frame kinds, fate)
 func (w *World) FeedShape() {
